@@ -24,6 +24,11 @@ def make_records(out):
     return recs
 
 
+# segment penalties; a negative entry stands for |P| thousandths ("all positive segment penalties": also tiny ones, where a bend
+# costs less than any difference in length and less than libavoid's cost-comparison tolerances)
+PENS = [1, 3, 10, 50, 1, 10, -1, -8, -50, -500]
+
+
 def main(tier):
     ev = V.Evidence(PID, tier)
     vd = V.Verdict(PID, ev)
@@ -62,7 +67,7 @@ def main(tier):
         # which is outside the statement ("obstacle-avoiding paths" in scenes of rectangles)
         for _ in range(per):
             a, b = rnd.sample(free, 2)
-            scenes.append({'mode': 1, 'P': rnd.choice([1, 3, 10, 50]), 'buf': 0, 'opts': 0, 'shapes': [RC.rect_poly(r) for r in st],
+            scenes.append({'mode': 1, 'P': rnd.choice(PENS), 'buf': 0, 'opts': 0, 'shapes': [RC.rect_poly(r) for r in st],
                            'conns': [(a[0], a[1], rnd.choice(masks), b[0], b[1], rnd.choice(masks))]})
     out = RC.run_scenes(hr, d, 'orth', scenes)
     recs = make_records(out)
@@ -91,7 +96,7 @@ def main(tier):
     ev.cov['distinct_nontrivial'] = nontriv
     ev.cov['traces_validated_against_impl'] = len(recs)
     ev.cov['rule'] = ('records = (scene, connector): scenes = every set of <=2 rectangles with corners on the even lattice 2..10 separated by >=2 (TLC-enumerated: %d single, %d pairs; '
-                      '%d scenes replayed), endpoints on the odd lattice in free space, direction masks {all, single, opposite pairs}, P in {1,3,10,50}; '
+                      '%d scenes replayed), endpoints on the odd lattice in free space, direction masks {all, single, opposite pairs}, P in {1,3,10,50} and {0.001,0.008,0.05,0.5}; '
                       'non-trivial = route with at least one bend' % (len(singles), len(pairs), len(chosen)))
     for x in recs[:2]:
         ev.sample(x)
